@@ -44,7 +44,27 @@ ASSUMPTIONS = [
     "the host clock (time.time) does not step backwards between the two "
     "readings around a main-thread send (such sends are skipped)",
     "'closes with the tail-time marker' is read literally: the marker is "
-    "the last score entry",
+    "the last score entry; its time may be either (last wake-up + tail) or "
+    "(latest bundle + tail): the statement does not say which",
+    "refusals are never violations; the only documented ones seen are "
+    "nested bundles earlier than their parent (NetAddr.send_bundle docstring)",
+    "on the real UDP loop-back path only the time argument of delivered "
+    "callbacks is judged: lost datagrams give no verdict, and the ORDER of "
+    "callbacks is not judged there (the UDP thread schedules one task per "
+    "message while reading the global current time thread, so order is not "
+    "a function of the datagram); C06 judges order on OscPacket.messages "
+    "and on _handle_request driven from a quiet main thread",
+    "tolerances: 0 timetag units for routines on SystemClock/AppClock and "
+    "for the self-consistency oracle on every clock; 5 units (1e-9 s) for "
+    "the independent expectation through a TempoClock's beats->seconds map; "
+    "2**-31 s for callback times (2**-32 timetag truncation + rounding); "
+    "1e-9 s for 'same send instant' of main-thread sends",
+    "routines that do not finish within 15 s of a round are not judged "
+    "(bounded progress is C08's subject); only then is the quiet phase "
+    "skipped",
+    "OscScore.finish() called from inside a routine is reachable only via "
+    "private attributes; 8% of the programs do it from a routine that runs "
+    "after everything else (t = 1000 s) and are judged like the others",
 ]
 MIN_COUNTERS = {
     'rt_timetags_compared': 400,
